@@ -1641,6 +1641,7 @@ pub fn oracle_compound(sp: &Sp, real: &RealSp, a: &St, b: &St, t: f64, out: &mut
             // the motion-check resolution of C03 IS this length: a compound space that reports a longer one than the
             // law gives makes every planner sample its motions more coarsely than configured
             if l > acc.sqrt() {
+                out.push(finding("C06", "false_success_through_coarse_checks", format!("{sp:?}: longest valid segment {l} exceeds sqrt(sum (w_i l_i)^2) = {}: motions are sampled more coarsely than configured, so a sealing wall thinner than the inflated step no longer prevents a path", acc.sqrt())));
                 out.push(finding("C18", "edge_validation_too_coarse", format!("{sp:?}: longest valid segment {l} exceeds sqrt(sum (w_i l_i)^2) = {}: roadmap edges are validated at a coarser resolution than configured", acc.sqrt())));
                 out.push(finding("C03", "compound_resolution_too_coarse", format!("{sp:?}: longest valid segment {l} exceeds sqrt(sum (w_i l_i)^2) = {}: motions are checked at a coarser resolution than the subspaces' settings give", acc.sqrt())));
             }
